@@ -2,7 +2,8 @@
 //! `Moyo/Model/StageIdentify.lean`.
 //!   s5-table <tier> <out>   lines `request ||| expected`:
 //!     `s5 <tag> ; nops k ; ops … ; setting … ; epsilon e ||| ok ; number n ; hallnum h ; ulinear … ; ushift …` (or `err V` / `PANIC m`)
-//!       - for every Hall number h: `primitive_traverse()` of h under Spglib, Standard, HallNumber(h)      (tags t<h>-…)
+//!       - for every Hall number h: `primitive_traverse()` of h under Spglib, Standard, HallNumber(h)      (tags t<h>-…; these
+//!         requests carry `; row h` and the model also checks its answer against the tabulated number / convention Hall number)
 //!       - requests of a neighbouring Hall number (honoured when it is another setting of the type, else refused),
 //!         out-of-range Hall numbers, operations with translations perturbed around epsilon (both verdicts),
 //!         re-based operations (random unimodular change of basis + origin shift; thorough tier: more of each)
@@ -18,7 +19,13 @@ use moyo::verif::identify::{PointGroup, SpaceGroup};
 use nalgebra::{Matrix3, Vector3};
 
 fn emit(w: &mut CaseWriter, tag: &str, ops: &[Operation], setting: Setting, epsilon: f64) {
-    let req = format!("s5 {} ; nops {} ; ops {} ; setting {} ; epsilon {}", tag, ops.len(), ops_str(ops), setting_str(setting), fx(epsilon));
+    emit_row(w, tag, ops, setting, epsilon, None)
+}
+
+/// `row`: Hall number whose tabulated operations these are; the model then also checks the answer against the tables.
+fn emit_row(w: &mut CaseWriter, tag: &str, ops: &[Operation], setting: Setting, epsilon: f64, row: Option<i32>) {
+    let rowseg = row.map(|h| format!(" ; row {}", h)).unwrap_or_default();
+    let req = format!("s5 {} ; nops {} ; ops {} ; setting {} ; epsilon {}{}", tag, ops.len(), ops_str(ops), setting_str(setting), fx(epsilon), rowseg);
     let o = ops.to_vec();
     let exp = match catch(move || SpaceGroup::new(&o, setting, epsilon)) {
         Ok(Ok(sg)) => format!(
@@ -87,9 +94,9 @@ pub fn gen(tier: &str, seed: u64, out: &str) {
         let hs = HallSymbol::from_hall_number(h).unwrap();
         let ops = hs.primitive_traverse();
         // exhaustive part
-        emit(&mut w, &format!("t{}-spglib", h), &ops, Setting::Spglib, 1e-8);
-        emit(&mut w, &format!("t{}-standard", h), &ops, Setting::Standard, 1e-8);
-        emit(&mut w, &format!("t{}-hall", h), &ops, Setting::HallNumber(h), 1e-8);
+        emit_row(&mut w, &format!("t{}-spglib", h), &ops, Setting::Spglib, 1e-8, Some(h));
+        emit_row(&mut w, &format!("t{}-standard", h), &ops, Setting::Standard, 1e-8, Some(h));
+        emit_row(&mut w, &format!("t{}-hall", h), &ops, Setting::HallNumber(h), 1e-8, Some(h));
         emit_pg(&mut w, &format!("t{}", h), &ops);
         // a neighbouring request
         let mut others: Vec<i32> = vec![];
